@@ -273,9 +273,12 @@ class ParseModel(object):
                 via_lambda = any(strip(c_.kids[1]).ref in locals_ and (locals_[strip(c_.kids[1]).ref].type or '').startswith('(lambda')
                                  for c_ in lam[0].find('CXXOperatorCallExpr') if len(c_.kids) >= 2 and strip(c_.kids[0]).ref == 'operator()')
                 # ... or forwards it, with the scaffold, to a helper function of the header that asks
-                via_fn = any(strip(c_.kids[0]).ref and ('fn:' + strip(c_.kids[0]).ref) in self.decls
-                             and self.p_scaffold in {x.ref for a_ in c_.kids[1:] for x in a_.walk() if x.kind == 'DeclRefExpr'}
-                             for c_ in lam[0].find('CallExpr') if c_.kids)
+                # (a thin wrapper: its body is `return helper(...)`; a lambda that uses the looked-up rules itself is not one)
+                body_ = [k_ for k_ in lam[0].walk() if k_.kind == 'CompoundStmt']
+                thin = bool(body_) and len(body_[0].kids) == 1 and body_[0].kids[0].kind == 'ReturnStmt'
+                via_fn = thin and any(strip(c_.kids[0]).ref and ('fn:' + strip(c_.kids[0]).ref) in self.decls
+                                      and self.p_scaffold in {x.ref for a_ in c_.kids[1:] for x in a_.walk() if x.kind == 'DeclRefExpr'}
+                                      for c_ in lam[0].find('CallExpr') if c_.kids)
                 if not asks and not via_lambda and not via_fn:
                     continue            # uses a callback without asking it (e.g. hands it to a lookup function)
                 if self.p_bin in refs:
